@@ -112,6 +112,13 @@ class Tripwire:
         object.__setattr__(self, '_delegate', delegate or DemonicRng('ambient_' + name))
 
     def __getattr__(self, attr):
+        r = S.cur() if S.active() else None
+        if r is not None and r.mode == 'concrete' and r.rng is not None:
+            # run-time tier: REAL seeds and the real generator (uses of the ambient one are still recorded)
+            import random as _real
+            if attr != 'Random':
+                self._uses.append('%s.%s' % (self._name, attr))
+            return getattr(_real, attr)
         if attr in ('Random',):
             # constructing a PRIVATE generator from a seed is allowed: it yields a demonic private generator
             def mk(seed=None):
